@@ -76,31 +76,40 @@ def two_sites_only(s, site):
     return len(occurrences(s, site)) == 1 and len(occurrences(s, rc(site))) == 1
 
 
-def build_module(rng, geom, o5, o3, tlen, blen, extra_forbid=()):
-    """site . x . o5 . t . o3 . y . rc(site) . b  with exactly one site per strand"""
+def _pinned(text, prefix, suffix):
+    """`text` with its first/last letters replaced by prefix/suffix (lengthened when too short)"""
+    if len(text) < len(prefix) + len(suffix):
+        text = text + "A" * (len(prefix) + len(suffix) - len(text))
+    return prefix + text[len(prefix):len(text) - len(suffix)] + suffix
+
+
+def build_module(rng, geom, o5, o3, tlen, blen, extra_forbid=(), t_prefix="", t_suffix=""):
+    """site . x . o5 . t . o3 . y . rc(site) . b  with exactly one site per strand
+    (t_prefix/t_suffix pin the first/last letters of the target)"""
     site, n, k = geom
     for _ in range(2000):
         x = rand_dna(rng, n)
         y = rand_dna(rng, n)
-        t = rand_dna(rng, tlen)
+        t = _pinned(rand_dna(rng, tlen), t_prefix, t_suffix)
         b = rand_dna(rng, blen)
         s = site + x + o5 + t + o3 + y + rc(site) + b
         if two_sites_only(s, site) and not any(refmodel.count_sites(s, f) for f in extra_forbid):
-            return {"seq": s, "t": t, "b": b, "frag_start": len(site) + n, "frag_len": k + tlen}
+            return {"seq": s, "t": t, "b": b, "frag_start": len(site) + n, "frag_len": k + len(t)}
     raise RuntimeError("cannot build module")
 
 
-def build_vector(rng, geom, o_start, o_end, plen, blen, extra_forbid=()):
-    """o_end . y . rc(site) . p . site . x . o_start . b ; retained = o_start . b"""
+def build_vector(rng, geom, o_start, o_end, plen, blen, extra_forbid=(), b_prefix="", b_suffix=""):
+    """o_end . y . rc(site) . p . site . x . o_start . b ; retained = o_start . b
+    (b_prefix/b_suffix pin the first/last letters of the backbone)"""
     site, n, k = geom
     for _ in range(2000):
         x = rand_dna(rng, n)
         y = rand_dna(rng, n)
         p = rand_dna(rng, plen)
-        b = rand_dna(rng, blen)
+        b = _pinned(rand_dna(rng, blen), b_prefix, b_suffix)
         s = o_end + y + rc(site) + p + site + x + o_start + b
         if two_sites_only(s, site) and not any(refmodel.count_sites(s, f) for f in extra_forbid):
-            return {"seq": s, "p": p, "b": b, "frag_start": len(s) - blen - k, "frag_len": k + blen}
+            return {"seq": s, "p": p, "b": b, "frag_start": len(s) - len(b) - k, "frag_len": k + len(b)}
     raise RuntimeError("cannot build vector")
 
 
